@@ -420,6 +420,9 @@ class HierDictDocument(DictDocument):
                 cls, = ti.values()
                 ti = getattr(cls, '_type_info', {})
 
+            if inst is None:
+                return None
+
         # transform the results into a dict:
         if cls.Attributes.max_occurs > 1:
             if inst is not None:
